@@ -782,7 +782,14 @@ namespace occa {
           vendor_ = (1 << vendorBit);
         }
 
-        io::write(outFilename, std::to_string(vendor_));
+        io::stageFile(
+          outFilename,
+          false,
+          [&](const std::string &tempFilename) -> bool {
+            io::write(tempFilename, std::to_string(vendor_));
+            return true;
+          }
+        );
 
         return vendor_;
       }
